@@ -46,6 +46,9 @@ from renormalizer.tn.tree import TTNO, TTNS
 from renormalizer.tn.treebase import BasisTree
 
 
+DAV_SIG = "optimize_ttns:davidson:small-local-problem(dim<=16):wrong-eigenpair"
+
+
 def absmax(a):
     a = np.asarray(a)
     return float(np.abs(a).max()) if a.size else 0.0
@@ -567,13 +570,16 @@ def run_tree_case(run, rng, kind):
                 local_fired.append("asym")
             else:
                 wl = np.linalg.eigvalsh((a + a.T) / 2)
-                if float(np.real(e)) < wl[0] - 1e-8 * scale:
-                    cls = "dim<=16" if nloc <= 16 else "dim>16"
+                cn = float(np.linalg.norm(c))
+                if float(np.real(e)) < wl[0] - 1e-8 * scale or abs(cn - 1) > 1e-6:
+                    # value below the lowest eigenvalue of the local matrix, or an "eigenvector" that is not normalised
+                    # (the optimiser stores it as the new two-site tensor)
                     if not local_fired:
-                        run.violation(f"optimize_ttns:{algo_}:local-eigenvalue-below-exact:{cls}",
-                                      dict(replay, dim=nloc, returned=float(np.real(e)), lowest=float(wl[0]),
-                                           matrix=tolist(a), guess=tolist(np.asarray(cguess)), vector_norm=float(np.linalg.norm(c))))
-                    local_fired.append("below")
+                        sig = DAV_SIG if (algo_ == "davidson" and nloc <= 16) else \
+                            f"optimize_ttns:{algo_}:local-problem(dim={'<=16' if nloc <= 16 else '>16'}):wrong-eigenpair"
+                        run.violation(sig, dict(replay, dim=nloc, returned=float(np.real(e)), lowest=float(wl[0]),
+                                                matrix=tolist(a), guess=tolist(np.asarray(cguess)), vector_norm=cn))
+                    local_fired.append("eigenpair")
                 elif abs(float(np.real(e)) - wl[0]) > 1e-6 * scale:
                     run.count("tree:local-solver-not-lowest(iterative, allowed)")
             run.count("T:local-problems-checked")
@@ -584,6 +590,9 @@ def run_tree_case(run, rng, kind):
         e_list = tngs.optimize_ttns(ttns, ttno, procedure)
     except Exception as e:
         import traceback
+        if local_fired:
+            run.count("tree:aborted-after-local-solver-finding:" + type(e).__name__)
+            return None
         if algo == "arpack" and isinstance(e, TypeError) and "k >= N" in str(e):
             # SciPy's Lanczos refuses 1- and 2-dimensional local problems: a documented restriction of that solver
             run.count("tree:rejected:arpack-local-dimension<=k")
@@ -655,8 +664,8 @@ def davidson_probe(run):
     except Exception as ex:
         run.count("tree:davidson-probe-raises:" + type(ex).__name__)
         return
-    if float(np.real(e)) < d.min() - 1e-8:
-        run.violation("optimize_ttns:davidson:local-eigenvalue-below-exact:dim<=16",
+    if float(np.real(e)) < d.min() - 1e-8 or abs(float(np.linalg.norm(c)) - 1) > 1e-6:
+        run.violation(DAV_SIG,
                       dict(where="tn.gs.eigh_iterative(hop, hdiag, cguess, 'davidson') on a 4x4 diagonal local problem "
                                  "(the tree optimiser has no direct fallback for small problems; optimize_ttns reaches this, "
                                  "e.g. random trees over the 2-species electron-phonon model report micro-iteration energies "
